@@ -421,6 +421,80 @@ def codon_isolation(first):
     return fn
 
 
+def registry_pressure():
+    """the codon registry under pressure: after EVERY IUPAC triplet has been constructed and a number of rejected strings have been offered as well, the
+    built-in start/stop tables, identity of equal spellings and every answer of a held codon are what they were (a bounded / evicting registry would
+    break identity-based equality)"""
+
+    def fn(n_bad, probe):
+        n_bad, probe = concretize(n_bad, probe)
+        with untraced():
+            from inscripta.biocantor.gene.codon import Codon, TranslationTable
+
+            fwd, stops1, starts1, starts11, _ = _ref_tables()
+            held = {t: Codon(t) for t in ("ATG", "GTG", "TTG", "CTG", "TAA", "TAG", "TGA", "AAA")}
+
+            def snapshot():
+                return {t: (c.translate(), c.is_stop_codon, c.is_canonical_start_codon, tuple(c.is_start_codon_in_specific_translation_table(tb) for tb in TranslationTable),
+                            tuple(sorted(str(x) for x in c.synonymous_codons()))) for t, c in held.items()}
+
+            before = snapshot()
+            for a, b, c in itertools.product(LETTERS, repeat=3):
+                Codon(a + b + c)
+            bad = ["AT", "ATGA", "A-G", "AT*", "XYZ", "", "ATGG", "A G", "123", "ÄTG", "AT\n", "NN"]
+            for t in bad[:n_bad]:
+                try:
+                    Codon(t)
+                    return False  # a non-triplet / foreign letter must be refused
+                except ValueError:
+                    pass
+            # one further spelling never offered before
+            try:
+                Codon("Q%02d" % probe)
+                return False
+            except ValueError:
+                pass
+            ok = snapshot() == before
+            for t, c in held.items():
+                fresh = Codon(t)
+                ok = ok and fresh is c and fresh == c and Codon(t.lower()) is c
+                ok = ok and c.is_start_codon_in_specific_translation_table(TranslationTable.STANDARD) == (t in starts1)
+                ok = ok and c.is_start_codon_in_specific_translation_table(TranslationTable.PROKARYOTE) == (t in starts11)
+                ok = ok and c.is_canonical_start_codon == (t == "ATG") and c.is_stop_codon == (t in stops1)
+            return ok
+
+    return fn
+
+
+def long_reverse_complement():
+    """reverse complement of LONG mixed-case sequences (lengths around powers of two, where block-wise or bulk fast paths would switch on) equals the
+    letter-by-letter IUPAC complement, reversed, case preserved; twice gives the sequence back (U~T)"""
+
+    def fn(a, e, d, phase):
+        a, e, d, phase = concretize(a, e, d, phase)
+        with untraced():
+            from Bio.Data import IUPACData
+            from inscripta.biocantor.sequence import Sequence
+            from inscripta.biocantor.sequence.alphabet import ALPHABET_TO_NUCLEOTIDE_COMPLEMENT
+
+            refc = dict(IUPACData.ambiguous_dna_complement)
+            refc.update({"U": "A", "-": "-"})
+            alpha = sorted(ALPHABET_TO_NUCLEOTIDE_COMPLEMENT, key=lambda x: x.name)[a]
+            letters = sorted(set(alpha.value))
+            n = 2 ** e + d
+            unit = "".join(letters) + "".join(letters).lower()
+            unit = unit[phase:] + unit[:phase]
+            text = (unit * (n // len(unit) + 1))[:n]
+            got = str(Sequence(text, alpha).reverse_complement())
+            exp = "".join((refc[ch.upper()].lower() if ch.islower() else refc[ch.upper()]) for ch in reversed(text))
+            if got != exp:
+                return False
+            back = str(Sequence(text, alpha).reverse_complement().reverse_complement())
+            return back.replace("U", "T").replace("u", "t") == text.replace("U", "T").replace("u", "t")
+
+    return fn
+
+
 def obligations(tier):
     out = [
         Obl("tables_codons", _smt_tables, {}, None, kind="smt", twin=False, cost=20, concrete=_tables_concrete,
@@ -456,6 +530,18 @@ def obligations(tier):
                        desc="a held strict Codon starting with %s keeps every answer (translate, predicates, synonyms, str, hash, identity) after ANY other codon over "
                             "ACGTU (upper or lower case) is constructed: the singleton table never aliases two spellings" % "ACGT"[first],
                        bounds="16 held codons x 125 constructed codons%s (closed by the solver)" % ("" if tier == "quick" else " x 2 cases"), examples=[dict(j=1, k=2, a=0, b=4, c=2, low=False)]))
+    out.append(Obl("codon_registry_under_pressure", registry_pressure(), dict(n_bad=int, probe=int),
+                   lambda n_bad, probe: 0 <= n_bad and n_bad <= 12 and 0 <= probe and probe <= (1 if tier == "quick" else 7), budget=900, cost=60,
+                   desc="after all 4096 IUPAC triplets and 0..12 rejected strings plus one further unseen string have gone through Codon(), the start/stop tables, "
+                        "singleton identity and every answer of held codons are unchanged",
+                   bounds="4096 triplets + 0..12 rejected strings + 1 unseen string (counts closed by the solver)", examples=[dict(n_bad=3, probe=0)]))
+    out.append(Obl("reverse_complement_long_mixed_case", long_reverse_complement(), dict(a=int, e=int, d=int, phase=int),
+                   lambda a, e, d, phase: 0 <= a and a <= 4 and 10 <= e and e <= (13 if tier == "quick" else 17) and -1 <= d and d <= 1 and 0 <= phase and phase <= 1,
+                   budget=900, cost=60,
+                   desc="reverse complement of long mixed-case sequences (every letter of the alphabet in both cases) equals the letter-by-letter IUPAC complement "
+                        "reversed, case preserved, and is an involution up to U~T",
+                   bounds="5 nucleotide alphabets x lengths 2^e-1, 2^e, 2^e+1 for e = 10..%d x 2 letter phases (closed by the solver)" % (13 if tier == "quick" else 17),
+                   examples=[dict(a=0, e=12, d=1, phase=0)]))
     if True:
         for first in range(16):
             out.append(Obl("codon_class_iupac_%s" % LETTERS[first], codon_class(LETTERS), {"i": int, "j": int, "k": int},
